@@ -278,3 +278,39 @@ Fixpoint repeated_groups (p : play) (ran : nat) (it n : nat) : list group :=
     the repeated acts are played [K] times in total. *)
 Definition prescribed (p : play) (r : repeat_spec) (K : nat) : list group :=
   acts_groups O O p ++ repeated_groups p (repeatActNum r) 1 (K - 1).
+
+(** * runScene's barrier: the WaitGroup accounting
+
+    [runScene] does [wg.Add(1)] before it hands each line to
+    [runAsyncTask]; the task calls [wg.Done] when the line has ended; if the
+    stopper REFUSES to start the task (it is quiescing: a termination signal
+    arrived after the prompter last looked at the stopper) the refusal branch
+    calls [wg.Done] itself and sends the error to [errCh].  The deferred
+    [wg.Wait] returns when the counter is zero.  [refusal_done] = does the
+    refusal branch call [wg.Done] (it does in the code). *)
+Inductive launch := LStarted | LRefused.
+Inductive wlabel := WLaunch (o : launch) | WTaskEnd.
+Record wgstate := mkWg {
+  wg_count : Z;          (* the WaitGroup counter *)
+  wg_running : nat;      (* line tasks started and not yet ended *)
+  wg_launched : nat;     (* lines handed to runAsyncTask so far *)
+  wg_reported : nat }.   (* values sent to errCh (capacity: number of lines + 1) *)
+Definition wg_init : wgstate := mkWg 0 0 0 0.
+
+Definition wstep (refusal_done : bool) (s : wgstate) (l : wlabel) : option wgstate :=
+  match l with
+  | WLaunch LStarted => Some (mkWg (wg_count s + 1) (S (wg_running s)) (S (wg_launched s)) (wg_reported s))
+  | WLaunch LRefused =>
+      Some (mkWg (wg_count s + 1 - (if refusal_done then 1 else 0)) (wg_running s) (S (wg_launched s)) (S (wg_reported s)))
+  | WTaskEnd =>
+      match wg_running s with
+      | O => None
+      | S n => Some (mkWg (wg_count s - 1) n (wg_launched s) (S (wg_reported s)))
+      end
+  end.
+
+Fixpoint wrun (refusal_done : bool) (s : wgstate) (ls : list wlabel) : option wgstate :=
+  match ls with
+  | [] => Some s
+  | l :: tl => match wstep refusal_done s l with Some s' => wrun refusal_done s' tl | None => None end
+  end.
